@@ -55,6 +55,8 @@ type Thread struct {
 	resume chan struct{}
 	hist   [16]byte
 	anon   bool
+	// atomicSync: see SyncPoint.
+	atomicSync bool
 }
 
 // Choice is one recorded choice point of an execution.
@@ -65,6 +67,8 @@ type Choice struct {
 	Picked int      `json:"picked"`
 	Key    [16]byte `json:"-"`
 	HasKey bool     `json:"-"`
+	// Observed choices are made by the code under test (see ChooseObserved).
+	Observed bool `json:"observed,omitempty"`
 }
 
 // Move is an environment transition offered by the harness at a scheduling step.
@@ -115,9 +119,20 @@ type Sched struct {
 	Stuck []string
 	// HorizonHit is set when MaxSteps was reached.
 	HorizonHit bool
-	noKeys     bool
+	// Mismatch: an observed choice differed from the replayed one.
+	Mismatch bool
+	noKeys   bool
 	panicErr   any
 	panicStack string
+	engineErr  string
+}
+
+// EngineErr returns a scheduler-level error (replay divergence), "" if none.
+// The harness must check it after Run and raise it as an EngineError.
+func (s *Sched) EngineErr() string {
+	s.mu.Lock()
+	defer s.mu.Unlock()
+	return s.engineErr
 }
 
 // PanicErr returns the first panic value recovered from a model thread.
@@ -231,6 +246,39 @@ func (s *Sched) Self() string {
 	return ""
 }
 
+// SyncPoint is the scheduling point of a shimmed mutex acquisition. A thread
+// that called AtomicSync(true) does not park at an acquirable mutex: its own
+// harness-level Point and the following critical section then form one atomic
+// step (needed when the harness must observe state atomically with an operation
+// that takes the lock itself).
+func (s *Sched) SyncPoint(label string, cond func() bool) {
+	if s == nil {
+		return
+	}
+	id := goid()
+	s.mu.Lock()
+	th := s.byGoid[id]
+	s.mu.Unlock()
+	if th != nil && th.atomicSync && (cond == nil || cond()) {
+		return
+	}
+	s.PointCond(label, cond, nil)
+}
+
+// AtomicSync switches the calling thread's mutex acquisitions between being
+// scheduling points (default) and not.
+func (s *Sched) AtomicSync(on bool) {
+	if s == nil {
+		return
+	}
+	id := goid()
+	s.mu.Lock()
+	if th := s.byGoid[id]; th != nil {
+		th.atomicSync = on
+	}
+	s.mu.Unlock()
+}
+
 // Point parks the calling thread until the scheduler picks it.
 func (s *Sched) Point(label string) { s.PointCond(label, nil, nil) }
 
@@ -304,10 +352,13 @@ func (s *Sched) chooseLocked(label string, opts []string, cost []int, withKey bo
 	}
 	i := len(s.Points)
 	pick := 0
-	if i < len(s.prefix) {
+	if i < len(s.prefix) && !s.Mismatch && s.engineErr == "" {
 		pick = s.prefix[i]
 		if pick < 0 || pick >= n {
-			panic(EngineError{fmt.Sprintf("replay divergence at point %d (%s): recorded choice %d but only %d options %v", i, label, pick, n, opts)})
+			// Never panic while holding s.mu: record, fall back to the default and let
+			// the scheduler loop end; the harness turns it into an EngineError.
+			s.engineErr = fmt.Sprintf("replay divergence at point %d (%s): recorded choice %d but only %d options %v", i, label, pick, n, opts)
+			pick = 0
 		}
 	}
 	c := Choice{Label: label, Opts: opts, Cost: cost, Picked: pick}
@@ -319,6 +370,29 @@ func (s *Sched) chooseLocked(label string, opts []string, cost []int, withKey bo
 	s.Used += cost[pick]
 	s.Trace = append(s.Trace, label+" -> "+opts[pick])
 	return pick
+}
+
+// ChooseObserved records a choice that the code under test made itself in a way
+// the harness can only observe (e.g. Go map iteration order): observed is the
+// option that happened. Beyond the replayed prefix the observation is recorded
+// as the pick; inside the prefix a different observation makes the execution a
+// Mismatch (the explorer re-runs it until the recorded alternative shows up).
+func (s *Sched) ChooseObserved(label string, opts []string, observed int) bool {
+	if s == nil {
+		return true
+	}
+	s.mu.Lock()
+	defer s.mu.Unlock()
+	i := len(s.Points)
+	cost := make([]int, len(opts))
+	if i < len(s.prefix) && s.prefix[i] != observed {
+		s.Mismatch = true
+		s.Points = append(s.Points, Choice{Label: label, Opts: opts, Cost: cost, Picked: observed, Observed: true})
+		return false
+	}
+	s.Points = append(s.Points, Choice{Label: label, Opts: opts, Cost: cost, Picked: observed, Observed: true})
+	s.Trace = append(s.Trace, label+" (observed) -> "+opts[observed])
+	return true
 }
 
 // Note appends to the observation trace without being a choice.
@@ -417,6 +491,10 @@ func (s *Sched) Run() {
 		}
 		if s.Steps >= s.MaxSteps {
 			s.HorizonHit = true
+			s.mu.Unlock()
+			break
+		}
+		if s.engineErr != "" || s.Mismatch {
 			s.mu.Unlock()
 			break
 		}
